@@ -8,7 +8,17 @@ from forml.io import dsl
 from harness import dslgen
 
 
+KINDS = {'int': dsl.Integer(), 'str': dsl.String(), 'float': dsl.Float(), 'bool': dsl.Boolean()}
+
+
 def build(desc):
+    if desc[0] in ('schema', 'stable', 'squery'):
+        # a schema made of the given fields in the given order / a table over it / a query selecting all its columns
+        schema = dsl.Schema.from_fields(*(dsl.Field(KINDS[k], name=n) for n, k in desc[1]))
+        if desc[0] == 'schema':
+            return schema
+        table = dsl.Table(schema)
+        return table if desc[0] == 'stable' else table.select(*(getattr(table, n) for n, _ in desc[1]))
     if desc[0] in ('table', 'ref', 'join', 'set', 'query'):
         return dslgen.build_source(desc)
     env = {'refs': {}}
